@@ -83,8 +83,34 @@ def run(sid, checks):
     return res
 
 
+HEADER = """# Seeded changes
+
+Each directory holds `patch.diff` (apply with `git -C /repo apply`), `demo.py` (exits non-zero with the change, 0 without; set `PEST_SRC=/repo/src`, `PEST_ROOT=/repo`), `meta.json` (what it breaks, what it needs to manifest, how it was confirmed) and `detect.json` (quick checks run against it with `tools/seed.py run`). All were written by independent sub-agents given only the property text and a scratch worktree, and confirmed in a scratch worktree (suite still 678 passed; demo fails with / passes without). `_1`, `_2`: first round; `_3`, `_4`: second round (other sub-agents, asked for two different parts of the code). Patches are against the tree as it was when they were confirmed; later `fix:` commits may make an older patch need `git apply -3`.
+
+| seed | property | files | what it breaks | detected by (quick tier) |
+|---|---|---|---|---|
+"""
+
+
+def table():
+    rows = []
+    for sid in sorted(os.listdir(f"{VERIF}/seeded")):
+        d = f"{VERIF}/seeded/{sid}"
+        if not os.path.isdir(d):
+            continue
+        m = json.load(open(f"{d}/meta.json"))
+        det = json.load(open(f"{d}/detect.json")) if os.path.exists(f"{d}/detect.json") else {}
+        by = ", ".join(c for c, r in det.items() if r.get("violations_reported")) or "NOT DETECTED"
+        what = str(m.get("what_it_breaks", "")).replace("|", "/").replace("\n", " ")[:150]
+        rows.append(f"| {sid} | {m['property']} | {', '.join(m.get('files_touched', []))} | {what} | {by} |")
+    open(f"{VERIF}/seeded/README.md", "w").write(HEADER + "\n".join(rows) + "\n")
+    print(len(rows), "rows;", sum("NOT DETECTED" in r for r in rows), "not detected")
+
+
 if __name__ == "__main__":
-    if sys.argv[1] == "confirm":
+    if sys.argv[1] == "table":
+        table()
+    elif sys.argv[1] == "confirm":
         sys.exit(0 if confirm(*sys.argv[2:]) else 1)
     elif sys.argv[1] == "run":
         run(sys.argv[2], sys.argv[3:])
